@@ -61,6 +61,9 @@ func errClass(s string) string {
 	return s
 }
 
+// hangConfirmed: this process has confirmed a non-terminating script with the long limit once.
+var hangConfirmed bool
+
 func runExecCase(c execCase) execOutcome {
 	tr := run.TranspileSrc(c.Files, c.Main, run.Bash)
 	if c.AfterOtherTarget {
@@ -78,10 +81,19 @@ func runExecCase(c execCase) execOutcome {
 	o := run.ExecOpts{Stdin: c.Stdin, Pre: c.Pre, PreDirs: c.PreDirs, Exec: c.Exec, Env: c.Env, KeepFS: c.CheckFS, Timeout: 6 * time.Second}
 	res := run.RunBash(tr.Script, o)
 	if res.TimedOut {
-		// confirm once in isolation with a longer limit before calling it a hang
+		// confirm in isolation with a longer limit before calling it a hang
 		o.Timeout = 20 * time.Second
 		res = run.RunBash(tr.Script, o)
+		if res.TimedOut && !hangConfirmed {
+			// twice over the limit: either the script does not terminate or the machine is stalled (seen once on the unchanged tree:
+			// a script of 0.3 s exceeded 6 s and 20 s while another job saturated the machine). Wait until a trivial script runs
+			// promptly again, then decide with a limit 200 times the normal run time.
+			run.WaitResponsive()
+			o.Timeout = 60 * time.Second
+			res = run.RunBash(tr.Script, o)
+		}
 		if res.TimedOut {
+			hangConfirmed = true // later time-outs of this shard are decided by the 20 s re-run (a violation is established anyway)
 			return execOutcome{Kind: "hang", Msg: "script did not terminate within 20 s (reference run is finite)", Script: tr.Script, Res: res}
 		}
 	}
